@@ -515,3 +515,5 @@ def close_is_reported_exactly_once(b):
 import contracts.c09_lifecycle as _L
 unit(P, target=OF + "Connection.disconnect(defer_event=True) / Connection.close",
      name="a_fatal_send_error_is_reported_closed_exactly_once")(_L.deferred_down_is_raised_by_the_later_close)
+
+import contracts.c10_ioloop   # noqa: registers the C20 unit on the switch I/O loop's write set (pending_bytes_keep_a_worker_in_the_write_set...)
